@@ -82,6 +82,8 @@ type FuncContract struct {
 	Props     []string
 	Wraps     bool // signed arithmetic wraps silently (no overflow obligations)
 	NoTerm    bool
+	PartialWhen *SNode // partial when <cond over the entry state>: unsupported statements may be reached exactly under cond
+	Partial   bool // statements outside the supported subset must be unreachable (obligation) instead of failing the function
 	NoAlloc   bool // the function allocates nothing (checked at every exit; callers keep their allocation counter)
 	NoMerge   bool
 	InstName  string
@@ -122,7 +124,7 @@ var clauseKeywords = map[string]bool{
 	"decreases": true, "loop": true, "invariant": true, "at": true, "assert": true, "ghost": true,
 	"mode": true, "trusted": true, "inline": true, "pure": true, "axiom": true, "global": true,
 	"type": true, "lemma": true, "props": true, "wraps": true, "unroll": true, "uses": true,
-	"guarded_by": true, "noterm": true, "noalloc": true, "nomerge": true, "traced": true, "bind": true, "ghostparam": true, "recspec": true, "opaque": true, "assume": true, "havoc": true,
+	"guarded_by": true, "noterm": true, "noalloc": true, "partial": true, "nomerge": true, "traced": true, "bind": true, "ghostparam": true, "recspec": true, "opaque": true, "assume": true, "havoc": true,
 	"split": true, "stdlib": true, "defspec": true, "ih": true, "apply": true,
 }
 
@@ -347,6 +349,15 @@ func parseContractFile(path string, pkg string, pc *PkgContracts) error {
 			cur.NoTerm = true
 		case "noalloc":
 			cur.NoAlloc = true
+		case "partial":
+			cur.Partial = true
+			if strings.HasPrefix(rest, "when ") {
+				e, err := parseSpec(strings.TrimSpace(strings.TrimPrefix(rest, "when ")))
+				if err != nil {
+					return bad("partial when: %v", err)
+				}
+				cur.PartialWhen = e
+			}
 		case "nomerge":
 			cur.NoMerge = true
 		case "props":
